@@ -19,7 +19,10 @@ pub mod fifo {
     use core::cell::{Cell, UnsafeCell};
 
     /// Largest ring the model supports.
+    #[cfg(not(ocv_small))]
     pub const MAX_CAP: usize = 4;
+    #[cfg(ocv_small)]
+    pub const MAX_CAP: usize = 2;
     /// Scheduling-point site id.
     pub const SITE: u32 = 4;
 
